@@ -223,7 +223,7 @@ def build_state(init):
     random.seed(12345)
     s = State()
     s.init = init
-    s.sf = {}
+    s.detached = []  # assemblies taken out of the core by removeAssembly (still objects of the model)
     k = init["kind"]
     if k == "block":
         s.root = _table_block(init)
@@ -241,19 +241,6 @@ def build_state(init):
 
         s.reactor = build.reactor(_core_spec(init))
         s.root = s.reactor.core
-        for a in s.root:
-            # symmetry factor implied by the position (independent of getSymmetryFactor): in a
-            # third-core periodic hex model the centre assembly is cut in three; without the upper
-            # edge assemblies every other assembly is whole (blocks.py documents exactly this).
-            # Quarter Cartesian core through the centre assembly: the centre cell is cut in four,
-            # the cells on the two axes in two.
-            i, j = int(a.spatialLocator.i), int(a.spatialLocator.j)
-            if init.get("geom") == "cart":
-                f = 4.0 if (i, j) == (0, 0) else (2.0 if (i == 0 or j == 0) else 1.0)
-            else:
-                f = 3.0 if (i, j) == (0, 0) else 1.0
-            for b in a:
-                s.sf[id(b)] = f
     else:
         raise ValueError(k)
     if init.get("detailed"):
@@ -262,6 +249,23 @@ def build_state(init):
         for c in _leaves_real(s.root):
             c.p.detailedNDens = np.array([1.0, 0.5, 0.25])
     return s
+
+
+def sym_factor(s, b):
+    """Symmetry factor implied by the CURRENT position of the block's assembly (independent of
+    getSymmetryFactor): in a third-core periodic hex model the centre assembly is cut in three;
+    without the upper edge assemblies every other assembly is whole (blocks.py documents exactly
+    this).  Quarter Cartesian core through the centre assembly: the centre cell is cut in four, the
+    cells on the two axes in two.  An assembly that is not in a core is whole."""
+    if s.init["kind"] != "core":
+        return 1.0
+    a = b.parent
+    if a is None or a.parent is not s.root:
+        return 1.0
+    i, j = int(a.spatialLocator.i), int(a.spatialLocator.j)
+    if s.init.get("geom") == "cart":
+        return 4.0 if (i, j) == (0, 0) else (2.0 if (i == 0 or j == 0) else 1.0)
+    return 3.0 if (i, j) == (0, 0) else 1.0
 
 
 def _leaves_real(o):
@@ -361,7 +365,7 @@ def snap(s, o=None):
     o = s.root if o is None else o
     lvl = _lvl(o)
     if lvl == "block":
-        sf = s.sf.get(id(o), 1.0)
+        sf = sym_factor(s, o)
         h = float(o.getHeight())
         kids = []
         areas = []
@@ -395,7 +399,7 @@ def canon(tree, M):
     volumes and detailedNDens.  ``expand`` returns its sha1 (the frontier can hold 10^5 states)."""
     out = []
     for p, l in M.leaves(tree):
-        out.append([list(p), sorted((n, sig(v)) for n, v in l["nd"].items()), sig(l["V"]), None if l["det"] is None else [sig(x) for x in l["det"]]])
+        out.append([list(p), sorted((n, sig(v)) for n, v in l["nd"].items()), sig(l["V"]), sig(l["w"]), None if l["det"] is None else [sig(x) for x in l["det"]]])
     return out
 
 
@@ -512,6 +516,10 @@ def target_ops(M, tree, path, budget="full"):
         if second or multi:
             add(["adjustMassFrac", p, {"nuclideToAdjust": one, "nuclideToHoldConstant": second or multi, "val": 0.1}], small=False)
     add(["clear", p], deep=True)
+    if node["lvl"] == "component" and one and len(path) >= 1:
+        sib = M.at(tree, path[:-1])["kids"]
+        other = (path[-1] + 1) % len(sib)
+        add(["shareNDs", p, other, 0.5], small=False)
     if node["lvl"] == "block":
         add(["setHeight", p, 1.25, False], deep=True)
         add(["setHeight", p, 0.8, True], small=False)
@@ -540,6 +548,15 @@ def geometry_ops(s, tree, M):
     cp = list(blocks[-1]) + [0] if k == "core" else [0, 0]
     ops.append((["setDim", cp, 0.95], STALE_BIT))
     ops.append((["setTemp", cp, 100.0], STALE_BIT))
+    if k == "core":
+        # placement: an assembly taken out of / put into / moved within a symmetric core changes its
+        # symmetry factor (offered beyond the initial state only in the hex core: cost)
+        tag = STALE_BIT if s.init.get("geom") != "cart" else 0
+        for bp in blocks:
+            ops.append((["removeAssembly", [bp[0]]], tag))
+        ops.append((["addDetached", [], "centre"], tag))
+        ops.append((["addDetached", [], "outer"], tag))
+        ops.append((["moveAssembly", [blocks[0][0]], "outer"], tag))
     if k == "assembly":
         ops.append((["removeBlock", [], -1], STALE_BIT))
         if s.init.get("which") != "blueprint":
@@ -636,6 +653,11 @@ def concrete_args(M, pre, op):
     if name == "setNDs":
         ns = op[2].get("only") or M.nucs(T)
         return {"d": {n: op[2]["mul"] * M.N(T, n) for n in ns}}
+    if name == "shareNDs":
+        d = {n: op[3] * M.N(T, n) for n in M.nucs(T)}
+        d2 = {n: 3.0 * v for n, v in list(d.items())[:2]}
+        d2["XE135"] = 1.0e-4
+        return {"d": d, "d2": d2, "other": int(op[2])}
     if name == "scale":
         return {"f": float(op[2])}
     if name == "setMassFrac":
@@ -652,6 +674,10 @@ def concrete_args(M, pre, op):
         return {"x": float(op[2])}
     if name == "removeBlock":
         return {"i": int(op[2])}
+    if name == "removeAssembly":
+        return {}
+    if name in ("addDetached", "moveAssembly"):
+        return {"where": op[2]}
     raise ValueError(name)
 
 
@@ -676,6 +702,9 @@ def model_apply(M, pre, op, a):
         M.updNDs(T, a["d"])
     elif name == "setNDs":
         M.setNDs(T, a["d"])
+    elif name == "shareNDs":
+        M.setNDs(T, a["d"])
+        M.setNDs(M.at(t, path[:-1] + (a["other"],)), a["d2"])
     elif name == "scale":
         M.scale(T, a["f"])
     elif name in ("setMassFrac", "setMassFracs"):
@@ -726,20 +755,38 @@ def real_apply(obj, op, a):
     elif name == "setMass":
         obj.setMass(a["n"], a["m"])
     elif name == "addMasses":
-        obj.addMasses(dict(a["d"]))
+        arg = dict(a["d"])
+        obj.addMasses(arg)
+        return arg
     elif name == "setMasses":
-        obj.setMasses(dict(a["d"]))
+        arg = dict(a["d"])
+        obj.setMasses(arg)
+        return arg
     elif name == "updNDs":
-        obj.updateNumberDensities(dict(a["d"]))
+        arg = dict(a["d"])
+        obj.updateNumberDensities(arg)
+        return arg
     elif name == "setNDs":
-        obj.setNumberDensities(dict(a["d"]))
+        arg = dict(a["d"])
+        obj.setNumberDensities(arg)
+        return arg
+    elif name == "shareNDs":
+        # ONE dict object handed to two different components, modified by the caller in between
+        arg = dict(a["d"])
+        obj.setNumberDensities(arg)
+        arg.clear()
+        arg.update(a["d2"])
+        obj_at(obj.parent, [a["other"]]).setNumberDensities(arg)
+        return arg
     elif name == "scale":
         obj.changeNDensByFactor(a["f"])
     elif name == "setMassFrac":
         ((n, v),) = a["d"].items()
         obj.setMassFrac(n, v)
     elif name == "setMassFracs":
-        obj.setMassFracs(dict(a["d"]))
+        arg = dict(a["d"])
+        obj.setMassFracs(arg)
+        return arg
     elif name == "adjustMassFrac":
         obj.adjustMassFrac(**a["kw"])
     elif name == "clear":
@@ -799,13 +846,28 @@ def step(s, M, pre, op, check, case):
     except Refusal as e:
         pred = pre
         want_out = "refused:" + e.exc
+    arg = None
     try:
-        real_apply(obj, op, a)
+        arg = real_apply(obj, op, a)
         out = "ok"
     except Exception as e:  # noqa: BLE001 - classified below
         out = ("refused:" if type(e).__name__ in CONTRACT else "raised:") + type(e).__name__
         exc = e
     post = snap(s)
+    if check and out == "ok" and isinstance(arg, dict):
+        # argument aliasing: what the caller does to its own container after the call must not
+        # reach the model (change a value, add a key, empty it)
+        for k0 in list(arg)[:1]:
+            arg[k0] = 7.0 * (arg[k0] or 1.0) if isinstance(arg[k0], float) else 7.0
+        arg["XE135"] = 1.0e-3
+        again = snap(s)
+        arg.clear()
+        again2 = snap(s)
+        for t2 in (again, again2):
+            d = _leafdiff(M, post, t2, (), exact=True)
+            if d:
+                vs.append(core.viol("c02/argument-aliased-%s-%s" % (KEYNAME.get(name, name), lvl_tag(Tpre, sym=False)), "%s after %s: the caller then modified its own argument dict and the model changed: %s" % (_where(s, path), _opstr(op, a), d[:2]), case))
+                return out, again2, vs  # the probe has altered the state: report this alone, from the state as it is now
     if not check:
         return out, post, vs
     if out != "ok":
@@ -822,9 +884,10 @@ def step(s, M, pre, op, check, case):
 
     n0 = len(vs)
     Tpost = M.at(post, path)
-    # frame condition: nothing outside the target's subtree changes
+    # frame condition: nothing outside the target's subtree changes (shareNDs addresses two siblings)
+    scope = path[:-1] if name == "shareNDs" else path
     for p, l in M.leaves(post):
-        if p[: len(path)] != path:
+        if p[: len(scope)] != scope:
             l0 = M.at(pre, p)
             if l0["nd"] != l["nd"]:
                 bad("frame-%s-%s" % (kname, tag), "component %s outside the edited object changed: %s" % (list(p), _dictdiff(l0["nd"], l["nd"])[:2]))
@@ -833,15 +896,31 @@ def step(s, M, pre, op, check, case):
     if len(vs) == n0:
         # the homogenised values are right; is the distribution over components the documented one?
         # add/remove mass: N + dN cancels, so the comparison is relative to the operands (the previous value)
-        d = _leafdiff(M, pred, post, path, scale=pre if name in ("addMass", "removeMass", "addMasses") else None)
+        d = _leafdiff(M, pred, post, scope, scale=pre if name in ("addMass", "removeMass", "addMasses") else None)
         if d:
             bad("distribution-%s-%s" % (kname, tag), "per-component densities differ from the documented de-homogenisation: %s" % d[:3])
-        if name == "scale" and Tpre["lvl"] == "component" and Tpre.get("det") is not None:
-            pass
     return out, post, vs
 
 
-GEOMETRY_OPS = ("setDim", "setTemp", "removeBlock", "addBlock")
+GEOMETRY_OPS = ("setDim", "setTemp", "removeBlock", "addBlock", "removeAssembly", "addDetached", "moveAssembly")
+
+
+def _place(s, where):
+    g = s.root.spatialGrid
+    if where == "centre":
+        return g[0, 0, 0]
+    return g[2, 2, 0] if s.init.get("geom") == "cart" else g[3, 0, 0]
+
+
+def _placement(s, obj, op, a):
+    name = op[0]
+    if name == "removeAssembly":
+        s.root.removeAssembly(obj, discharge=False)
+        s.detached.append(obj)
+    elif name == "addDetached":
+        s.root.add(s.detached.pop(0), _place(s, a["where"]))
+    else:
+        obj.moveTo(_place(s, a["where"]))
 
 
 def _geometry_step(s, M, pre, op, check, case):
@@ -853,8 +932,16 @@ def _geometry_step(s, M, pre, op, check, case):
     name, path = op[0], tuple(op[1])
     a = concrete_args(M, pre, op)
     obj = obj_at(s.root, path)
+    if name in ("addDetached", "moveAssembly"):
+        if (name == "addDetached" and not s.detached) or s.root.childrenByLocator.get(_place(s, a["where"])) is not None:
+            return "refused:NoTarget", pre, vs  # nothing to add / the location is occupied: outside the alphabet
+    if name == "removeAssembly" and len(pre["kids"]) <= 2:
+        return "refused:NoTarget", pre, vs
     try:
-        real_apply(obj, op, a)
+        if name in ("removeAssembly", "addDetached", "moveAssembly"):
+            _placement(s, obj, op, a)
+        else:
+            real_apply(obj, op, a)
         out = "ok"
     except Exception as e:  # noqa: BLE001
         out = "raised:" + type(e).__name__
@@ -872,6 +959,8 @@ def _geometry_step(s, M, pre, op, check, case):
         ratios = [l1.get(n, 0.0) / v for n, v in l0.items() if v]
         if set(l0) != set(l1) or (ratios and not all(close(r, ratios[0]) for r in ratios)) or (name == "setDim" and l0 != l1):
             vs.append(core.viol("c02/densities-%s" % name, "%s after %s: densities %s -> %s" % (_where(s, path), _opstr(op, a), dict(sorted(l0.items())[:3]), dict(sorted(l1.items())[:3])), case))
+    elif name in ("removeAssembly", "addDetached", "moveAssembly"):
+        pass  # the state invariants (root and detached assemblies) are the oracle
     else:
         before = [l["nd"] for _p, l in M.leaves(pre)]
         after = [l["nd"] for _p, l in M.leaves(post)]
@@ -890,23 +979,23 @@ def _opstr(op, a):
     return "%s(%s)" % (op[0], ", ".join("%s=%r" % kv for kv in sorted(a.items())))
 
 
-def _dictdiff(a, b, scale=None):
+def _dictdiff(a, b, scale=None, exact=False):
     out = []
     for k in sorted(set(a) | set(b)):
         if k not in a or k not in b:
             out.append("%s: %s" % (k, "only after" if k not in a else "only before"))
-        elif not close(a[k], b[k], scale=(scale or {}).get(k, 0.0)):
+        elif (a[k] != b[k]) if exact else not close(a[k], b[k], scale=(scale or {}).get(k, 0.0)):
             out.append("%s: %r vs %r" % (k, a[k], b[k]))
     return out
 
 
-def _leafdiff(M, t1, t2, path, scale=None):
+def _leafdiff(M, t1, t2, path, scale=None, exact=False):
     """Differences (key sets, values beyond RTOL) between the leaves of two trees under ``path``.
     ``scale``: a third tree whose values give the magnitude the tolerance is relative to."""
     out = []
     for p, l1 in M.leaves(M.at(t1, path), tuple(path)):
         l2 = M.at(t2, p)
-        for x in _dictdiff(l1["nd"], l2["nd"], None if scale is None else M.at(scale, p)["nd"]):
+        for x in _dictdiff(l1["nd"], l2["nd"], None if scale is None else M.at(scale, p)["nd"], exact):
             out.append("%s %s: %s" % (l1["name"], list(p), x))
         if (l1.get("det") is None) != (l2.get("det") is None) or (l1.get("det") is not None and not all(close(x, y) for x, y in zip(l1["det"], l2["det"]))):
             out.append("%s %s: detailedNDens %s vs %s" % (l1["name"], list(p), l1.get("det"), l2.get("det")))
@@ -1066,14 +1155,19 @@ def _selections(M, node, r):
     return sels
 
 
-def invariants(s, M, tree, case, full_paths=None):
+def invariants(s, M, tree, case, full_paths=None, root=None, suffix=""):
     """Every public accounting query of every object against the model tree. A query that raises
     in a reachable state is itself a violation (key query-raises-<section>-<level>-<Exception>)."""
     vs = []
     seen = set()
+    root = s.root if root is None else root
+
+    def _where(_s, path):  # noqa: F811 - relative to the walked root
+        o = obj_at(root, path)
+        return "%s%s %s%s" % (_lvl(o), suffix, getattr(o, "name", ""), list(path))
 
     def bad(key, node, path, msg, sym=True):
-        k = "c02/" + key + "-" + lvl_tag(node, sym)
+        k = "c02/" + key + "-" + lvl_tag(node, sym) + suffix
         if k in seen:
             return
         seen.add(k)
@@ -1105,6 +1199,7 @@ def invariants(s, M, tree, case, full_paths=None):
             v = q["v"] = o.getVolume()
             mv = M.vol(node)
             if not close(v, mv):
+                q["vbad"] = True  # the queries that multiply by this volume would only repeat the finding
                 bad("volume", node, path, "getVolume() = %r, closed-form geometry gives %r" % (v, mv))
             if lvl == "block":
                 sv = sum(c.getVolume() for c in o) / node["sf"]
@@ -1151,9 +1246,9 @@ def invariants(s, M, tree, case, full_paths=None):
 
         def density():
             rho = o.density()
-            if not close(rho, M.density(node)):
+            if here and not close(rho, M.density(node)):  # without nuclides a component defers to its material
                 bad("density", node, path, "density() = %r, sum N A / N_A = %r (densities %s)" % (rho, M.density(node), {n: mN[n] for n in sorted(mN)[:4]}), sym=False)
-            elif "v" in q and "mtot" in q and here:
+            elif "v" in q and "mtot" in q and here and not q.get("vbad"):
                 # mass = density x volume (a component counts volume / symmetry factor of its block: component.py getMass)
                 rv = rho * q["v"] / (node["V"] / node["w"] if comp and node["w"] else 1.0)
                 if not close(q["mtot"], rv):
@@ -1161,7 +1256,7 @@ def invariants(s, M, tree, case, full_paths=None):
 
         def masses():
             ms = o.getMasses()
-            for n in probe:
+            for n in probe if not q.get("vbad") else []:
                 gm = o.getMass(n)
                 if not close(ms.get(n, 0.0), gm):
                     bad("getMasses", node, path, "getMasses()[%s] = %r g, getMass(%s) = %r g" % (n, ms.get(n), n, gm))
@@ -1175,7 +1270,7 @@ def invariants(s, M, tree, case, full_paths=None):
                     bad("mass-fissile", node, path, "getFissileMass() = %r, expected %r" % (o.getFissileMass(), M.mass(node, fis)))
 
         def atoms():
-            if comp:
+            if comp or q.get("vbad"):
                 return
             for n in probe[:2]:
                 at = o.getNumberOfAtoms(n)
@@ -1211,6 +1306,27 @@ def invariants(s, M, tree, case, full_paths=None):
             elif tot and node["kids"] and not close(o[0].getVolumeFraction(), vols[0] / tot):
                 bad("volume-fractions", node, path, "child.getVolumeFraction() = %r, expected %r" % (o[0].getVolumeFraction(), vols[0] / tot))
 
+        def getter_aliasing():
+            # what a caller does to a returned container must not reach the model
+            for gname in ("getNumberDensities", "getMasses", "getMassFracs", "getVolumeFractions"):
+                if comp and gname == "getVolumeFractions":
+                    continue
+                g = getattr(o, gname)()
+                ref = list(g) if isinstance(g, list) else dict(g)
+                if isinstance(g, dict):
+                    for k0 in list(g)[:1]:
+                        g[k0] = 12345.0
+                    g["XE135"] = 1.0
+                else:
+                    g.append(None)
+                    del g[0]
+                g2 = getattr(o, gname)()
+                same = (len(g2) == len(ref) and all(x[0] is y[0] and x[1] == y[1] for x, y in zip(g2, ref))) if isinstance(ref, list) else (set(g2) == set(ref) and all(close(g2[k], ref[k]) for k in ref))
+                if not same:
+                    bad("getter-aliased-%s" % gname, node, path, "the container returned by %s() was modified by the caller and the next %s() differs" % (gname, gname), sym=False)
+            if set(o.getNuclides()) != set(here):
+                bad("getter-aliased-state", node, path, "modifying returned containers changed the nuclides of the object", sym=False)
+
         section("volume", volume)
         if not comp:
             section("volume-fractions", volfracs)
@@ -1224,13 +1340,17 @@ def invariants(s, M, tree, case, full_paths=None):
         if full and heavy:
             section("getMasses", masses)
             section("massfracs", massfracs)
-            if "nds" in q and "v" in q:
+            section("getter-aliasing", getter_aliasing)
+            if "nds" in q and "v" in q and root is s.root:
                 vs.extend(_conversions(s, M, q["nds"], q["v"], node, path, case, seen))
         if not comp:
             for i, (c, k) in enumerate(zip(o, node["kids"])):
                 walk(c, k, path + [i])
 
-    walk(s.root, tree, [])
+    walk(root, tree, [])
+    if root is s.root:
+        for a in s.detached:
+            vs += invariants(s, M, snap(s, a), case, None, root=a, suffix="-detached")
     return vs
 
 
@@ -1329,7 +1449,7 @@ def expand(item):
         ops = [op for op, rk in alpha if _offered(rk, R)]
     else:
         ops = []
-    return {"canon": _digest(canon(tree, M)), "full": None, "viols": viols, "ops": ops, "out": out, "terminal": not ops, "cpu": time.process_time() - cpu0}
+    return {"canon": _digest([canon(tree, M)] + [canon(snap(s, a), M) for a in s.detached]), "full": None, "viols": viols, "ops": ops, "out": out, "terminal": not ops, "cpu": time.process_time() - cpu0}
 
 
 def _opkey(op):
